@@ -2209,20 +2209,82 @@ def _owned_names():
 
 
 # =================================================================================================
+def persist_main(tier, out_path):
+    """Entry point of the persistence part when it runs in its own process, beside the registry part of the parent
+    (the two share nothing: the registry part works in fresh interpreters of its own)."""
+    viol, cov = [], {}
+    th = time.time()
+    wd = tla.make_build_dir(PROP + "-persist")
+    try:
+        _, _, n_paths, psamples = persist_part(tier, wd, viol, cov)
+    finally:
+        common.cleanup(wd)
+    cov["persist_phase_wall_s"] = round(time.time() - th, 2)
+    with open(out_path, "w") as fh:
+        json.dump({"viol": [v.to_json() for v in viol], "cov": cov, "n_paths": n_paths, "samples": psamples}, fh, default=str)
+
+
+def persist_start(tier):
+    import tempfile
+    os.makedirs(os.path.join(common.VERIF, "build"), exist_ok=True)
+    fd, path = tempfile.mkstemp(prefix="C18-persist-", suffix=".json", dir=os.path.join(common.VERIF, "build"))
+    os.close(fd)
+    env = dict(os.environ)
+    env["PYTHONPATH"] = os.pathsep.join(p for p in sys.path if p)
+    proc = subprocess.Popen([sys.executable, "-B", "-c",
+                             f"from harness.props import c18; c18.persist_main({tier!r}, {path!r})"],
+                            env=env, cwd=common.VERIF, stdout=subprocess.PIPE, stderr=subprocess.PIPE, text=True)
+    return proc, path
+
+
+def persist_finish(proc, path, viol, cov):
+    try:
+        _, err = proc.communicate(timeout=7200)
+        if proc.returncode == 2 and "MACHINERY-FAILURE" in err:
+            sys.stderr.write(err)
+            sys.exit(2)
+        if proc.returncode != 0:
+            raise RuntimeError(f"persistence part failed (exit {proc.returncode}):\n{err[-3000:]}")
+        with open(path) as fh:
+            r = json.load(fh)
+    finally:
+        if proc.poll() is None:
+            proc.kill()
+        try:
+            os.unlink(path)
+        except OSError:
+            pass
+    for v in r["viol"]:
+        viol.append(Violation(v["property"], v["clause"], v["case"], v["attrs"], v["detail"], v["replay"]))
+    cov.update(r["cov"])
+    return r["n_paths"], r["samples"]
+
+
 def run(tier):
     t0 = time.time()
     viol, cov, extra = [], {}, []
     phase = {}
     wd = tla.make_build_dir(PROP)
+    pproc = None
     try:
+        pproc = persist_start(tier)         # persistence part: in its own process, beside the registry part
         tp = time.time()
         runs, n_orders, rsamples = registry_part(tier, wd, viol, cov, extra)
         phase["registry"] = round(time.time() - tp, 2)
         tp = time.time()
-        mcr, tres, n_paths, psamples = persist_part(tier, wd, viol, cov)
-        phase["persistence"] = round(time.time() - tp, 2)
+        n_paths, psamples = persist_finish(*pproc, viol, cov)
+        pproc = None
+        phase["persistence_wait"] = round(time.time() - tp, 2)
+        phase["persistence"] = cov.get("persist_phase_wall_s")
     finally:
         common.cleanup(wd)
+        if pproc is not None:
+            if pproc[0].poll() is None:
+                pproc[0].kill()
+            try:
+                os.unlink(pproc[1])
+            except OSError:
+                pass
     cov.update({
         "states": cov["registry_states"] + cov["persist_states"],
         "transitions": cov["registry_transitions"] + cov["persist_transitions"],
